@@ -120,6 +120,7 @@ func (o *out) prop(id string, ok bool, what string) {
 		return
 	}
 	o.propFail++
+	what = strings.NewReplacer("\t", " ", "\n", " | ", "\r", " ").Replace(what) // one line, tab-separated record
 	o.w.WriteString("#PROPFAIL\t" + id + "\t" + o.key + "\t" + what + "\n")
 }
 
